@@ -4,6 +4,7 @@ import hashlib
 import io
 import json
 import os
+import re
 import shutil
 import subprocess
 import sys
@@ -262,6 +263,10 @@ def _case(draw):
     for fn in plan:
         o = draw(c07._opts(fn, names, bool(src.get("layers")), src))
         o.pop("debugFeatureFile", None)
+        if any("CubicToQuadraticFilter" in f_ for f_ in o.get("filters", [])):
+            # a second, caller-supplied curve conversion with rememberCurveType (C07's generator) is skipped in place - where the default conversion has left its
+            # marker - and runs otherwise: the inplace comparison then differs by the caller's own doing (DESIGN 10.14); not part of this check's domain
+            o.pop("filters")
         if kind in ("mark", "kern", "markchain"):
             o.pop("featureWriters", None)
         if F.chance(draw, 1, 4):
@@ -328,7 +333,46 @@ def kf2_class(src, op):
     return any(n.lower().startswith(("transformations", "propagateanchors")) for n in names)
 
 
+def module_state():
+    """canonical value of every list, dict and set bound at module level or as a class attribute anywhere in ufo2ft (default writer and filter lists, registries):
+    compile calls have no business changing them - a change is state that leaks into every later compile of the process"""
+    out = {}
+
+    def canon(v):
+        txt = lambda x: re.sub(r" at 0x[0-9a-fA-F]+", "", repr(x))[:200]
+        if isinstance(v, dict):
+            return ("dict", tuple(sorted((txt(k), txt(x)) for k, x in list(v.items()))))
+        if isinstance(v, (set, frozenset)):
+            return ("set", tuple(sorted(txt(x) for x in list(v))))
+        return ("list", tuple(txt(x) for x in list(v)))
+
+    for name, mod in sorted(sys.modules.items()):
+        if mod is None or not (name == "ufo2ft" or name.startswith("ufo2ft.")):
+            continue
+        for attr, val in list(vars(mod).items()):
+            if attr.startswith("__"):
+                continue
+            if isinstance(val, (list, dict, set)):
+                out["%s.%s" % (name, attr)] = canon(val)
+            elif isinstance(val, type) and getattr(val, "__module__", None) == name:
+                for a2, v2 in list(vars(val).items()):
+                    if not a2.startswith("__") and isinstance(v2, (list, dict, set)):
+                        out["%s.%s.%s" % (name, val.__name__, a2)] = canon(v2)
+    return out
+
+
 def run_case(case, ctx):
+    state0 = module_state()
+    _run_case(case, ctx)
+    state1 = module_state()
+    changed = sorted(k for k in set(state0) | set(state1) if state0.get(k) != state1.get(k) and k in state0)
+    if changed:
+        raise Violation("compile calls changed module-level state of ufo2ft (it leaks into every later compile of the process)", changed=changed,
+                        before={k: state0[k] for k in changed[:3]}, after={k: state1.get(k) for k in changed[:3]})
+    ctx.count("module-level-containers-watched", len(state0))
+
+
+def _run_case(case, ctx):
     source, module = case["source"], case["module"]
     src = source.get("spec") or source["fam"]["base"]
     if c07.arms_known_finding(src) or c07.snapshot_mask(src):
